@@ -159,7 +159,7 @@ impl<A: Float> AffFuncG<A> {
 //@bodysub? -A::one() => fneg(A::one())
 //@spec
     requires left < dim, right < dim
-    ensures r.ok(), r.mat.ncols() == dim, r.mat.nrows() == 1,
+    ensures r.ok(), r.mat.ncols() == dim, r.mat.nrows() == 1, r.bias.v() =~= seq![0real],
         forall|x: V| x.len() == dim ==> #[trigger] r.ap(x) =~= seq![x[left as int] - x[right as int]],
 //@hint start
         proof {
